@@ -207,7 +207,7 @@ class SimLoop(object):
     self.batch_break = cfg.get('batch_break', False)
     self.stall_prob = cfg.get('stall_prob', 0.0)
     self.stall_max = cfg.get('stall_max', 0.0)
-    self.max_steps = cfg.get('max_steps', 2000000)
+    self.max_steps = cfg.get('max_steps', 400000)
     self.trace_on = cfg.get('trace', False)
     self._callbacks = deque()
     self._events = []
